@@ -6,7 +6,7 @@ from common import run_model, exn_name
 RULE = ('for each of the 369 known versions (layout reified by probing, decided by the kernel): the full product of per-axis '
         'boundary values (in range and just outside), every single-bit / sign-boundary 64-bit word decoded, seeded random triples; '
         'chunk-section positions and block records likewise on both sides of protocol 741. impl bytes vs model word vs arithmetic '
-        'spec; decode(encode) = identity in range. Non-trivial = triple with at least one non-zero coordinate; distinct by (version-layout, input).')
+        'spec; decode(encode) = identity in range; one context object hopping across the switch-over (reused-context stream). Non-trivial = triple with at least one non-zero coordinate; distinct by (version-layout, input).')
 
 
 class Buf(object):
@@ -90,6 +90,35 @@ def check_positions(chk):
                     chk.violation('position-word', 'posw:%d:%x' % (pv, w), {'case': {'proto': pv, 'word': w}, 'expected': u, 'observed': back},
                                   'protocol %d Position.read of word %016x = %r; model %r' % (pv, w, back, tuple(u)))
         chk.tally('layout:' + lay)
+    # one context object whose protocol_version is reassigned (as Connection does while negotiating), hopping across the switch-over
+    shared = ConnectionContext(protocol_version=t['known_protocols'][0])
+    lay = dict(zip(t['known_protocols'], t['layout']))
+    hops = [404, 477, 47, 757, 442, 443, 441, 444, 340, 498] + [rng.choice(t['known_protocols']) for _ in range(200 if chk.tier == 'thorough' else 40)]
+    prev = None
+    for pv in hops:
+        if lay.get(pv) not in ('yz', 'zy'):
+            continue
+        shared.protocol_version = pv
+        later = lay[pv] == 'zy'
+        for (x, y, z) in [(1, 2, 3), (-5, 100, -7), (33554431, -2048, -33554432), (rng.randrange(-2 ** 25, 2 ** 25), rng.randrange(-2 ** 11, 2 ** 11), rng.randrange(-2 ** 25, 2 ** 25))]:
+            chk.count('reused-context', [pv, prev, x, y, z], True)
+            b = Buf()
+            bad = None
+            try:
+                Position.send_with_context((x, y, z), b, shared)
+                exp = struct.pack('>Q', spec_word(later, x, y, z))
+                if b.out != exp:
+                    bad = 'encoded %s; the %s packing is %s' % (b.out.hex(), 'x|z|y' if later else 'x|y|z', exp.hex())
+                else:
+                    back = tuple(Position.read_with_context(Buf(exp), shared))
+                    if back != (x, y, z):
+                        bad = 'decoded %r from the encoding of %r' % (back, (x, y, z))
+            except Exception as e:
+                bad = 'raised ' + exn_name(e)
+            if bad:
+                chk.violation('reused-context', 'reused:%d:%d:%d:%d' % (pv, x, y, z), {'case': {'proto': pv, 'previous_proto_on_this_context': prev, 'xyz': [x, y, z]}, 'observed': bad},
+                              'protocol %d Position %r on a context previously at protocol %s: %s' % (pv, (x, y, z), prev, bad))
+        prev = pv
     chk.sample('position', {'proto': 757, 'xyz': [1, 2, 3], 'word': '%016x' % spec_word(True, 1, 2, 3)}, k=1)
 
 
